@@ -554,6 +554,8 @@ def build_item(u, spec, twin, gen):
     if "R7" in spec.extra_rules:
         rules.r7_format(text, m, red)
     renamed_self = rules.r17_mut_self(text, m, red, kept_fns) if "R17" in spec.extra_rules else []
+    if "R22" in spec.extra_rules:
+        rules.r22_for_by_value_continue(text, m, red, kept_fns)
     if "R18" in spec.extra_rules:
         rules.r18_for_in_mut(text, m, red, kept_fns, renamed_self)
     # R8: default bodies of trait methods are dropped (the methods become required): a recording
